@@ -290,10 +290,10 @@ from exactly_lib.section_document.section_element_parsing import RecognizedSecti
 
 P_FIDP = 'exactly_lib.processing.parse.file_inclusion_directive_parser:FileInclusionDirectiveParser.parse'
 
-M.trust('pathlib.PurePosixPath(text) / pathlib.Path(pure path) in FileInclusionDirectiveParser.parse: some path (opaque; '
-        'which path a text denotes is pathlib\'s business)')
-M.model(pathlib.PurePosixPath, lambda interp, args, kwargs: PATH.make(interp, 'pure-path'))
-M.model(pathlib.Path, lambda interp, args, kwargs: PATH.make(interp, 'path'))
+# pathlib.PurePosixPath(text) / pathlib.Path(pure path): the abstract pathlib of contracts/pathspec.py (one model of
+# the pathlib constructors for all sidecar files of C07)
+from contracts import pathspec
+pathspec.install(M)
 
 
 def _one_line_consumed(source, orig, old):
